@@ -1285,13 +1285,15 @@ def c15_one(res, g):
         if [[(p.mu, p.sigma) for p in tm] for tm in pos] != want:
             res.fail("property", "C15: rate(teams, ranks, scores, %r, %r) with the options passed by position differs from a model constructed with those settings" % (t, b),
                      dict(type="c15", game=dict(g, tau=model_tau, ls=model_ls, tauopt=t, lsopt=b), other=target)); return
-        for mm_ in (1500.0, 0.5):
-            A = impl_teams(dict(g, model_mu=mm_, tau=t, ls=b, tauopt=None, lsopt=None))
-            B = impl_teams(dict(g, model_mu=mm_, tau=model_tau, ls=model_ls, tauopt=t, lsopt=b))
+        for mm_, t_ in ((1500.0, t), (0.5, t), (1500.0, 25.0 / 300.0), (0.0, 25.0 / 300.0)):
+            want_ = want if t_ == t else impl_teams(dict(target, tau=t_))
+            A = impl_teams(dict(g, model_mu=mm_, tau=t_, ls=b, tauopt=None, lsopt=None))
+            B = impl_teams(dict(g, model_mu=mm_, tau=model_tau, ls=model_ls, tauopt=t_, lsopt=b))
             res.count("models_with_other_default_mu")
-            if A != want or B != want:
+            if A != want_ or B != want_:
+                t = t_
                 res.fail("property", "C15: on a model whose default mu is %r, tau=%r / limit_sigma=%r given to the constructor (%s) or per call (%s) differ from the model with default mu 25"
-                         % (mm_, t, b, "differs" if A != want else "same", "differs" if B != want else "same"),
+                         % (mm_, t, b, "differs" if A != want_ else "same", "differs" if B != want_ else "same"),
                          dict(type="c15", game=dict(g, model_mu=mm_, tau=t, ls=b, tauopt=None, lsopt=None), other=target)); return
     except Exception as e:  # noqa: BLE001
         res.fail("property", "C15: valid call raised %s" % type(e).__name__, inp); return
@@ -1345,6 +1347,8 @@ def scale_game(g, k):
     g2["teams"] = [[(m * k, s * k) for (m, s) in t] for t in g["teams"]]
     g2["beta"] = g["beta"] * k
     g2["tau"] = g["tau"] * k
+    if g.get("model_mu") is not None:
+        g2["model_mu"] = g["model_mu"] * k
     if g["tauopt"] is not None:
         g2["tauopt"] = g["tauopt"] * k
     return g2
@@ -1443,6 +1447,33 @@ def c16(res):
         g = make_game(rng.choice(["PL", "BTF", "BTP"]), teams, oc=("R", random_weak_order(rng, n)), beta=beta, kappa=rng.choice([1e-4, 1e-6]), tau=0.0,
                       gamma=rng.choice(gen.GAMMAS))
         res.case(g); res.count("unit_range_end_games")
+        c16_one(res, g, rng, games)
+    # models whose own default mu is not 25, with tau pinned to values that coincide with the library's default 25/300 in one of the
+    # two units (tau is a number like any other: nothing may hinge on its being "the default")
+    for kind in ("PL", "BTF", "BTP"):
+        for mm_, tau_, k in ((30.0, 25.0 / 300.0, 2.0), (30.0, 50.0 / 300.0, 0.5), (50.0, 25.0 / 300.0, 3.0), (12.5, 25.0 / 300.0, 2.0), (100.0, 100.0 / 300.0, 0.25)):
+            teams = [[(rng.gauss(25, 6), rng.uniform(0.3, 2.0)) for _ in range(rng.randint(1, 2))] for _ in range(3)]
+            g = make_game(kind, teams, oc=("R", [1, 0, 1]), tau=tau_)
+            g["model_mu"] = mm_
+            res.case(g); res.count("models_with_other_default_mu")
+            try:
+                base, out = impl_teams(g), impl_teams(scale_game(g, k))
+            except Exception as e:  # noqa: BLE001
+                res.fail("property", "C16: valid call raised %s" % type(e).__name__, dict(type="game", game=g)); continue
+            mm = teams_close(g, [[(m / k, s_ / k) for (m, s_) in t] for t in out], base, 4e-9)
+            if mm:
+                res.fail("property", "C16: posterior does not scale with the unit (factor %r, model default mu %r, tau %r): %s" % (k, mm_, tau_, mm), dict(type="c16", game=g, scale=k))
+    # drawn games between teams whose total mu differ by a relative 1e-12 .. 1e-8 (a near-even draw): shifting the origin must not
+    # change on which side of any tolerance the pair falls
+    for _ in range(size(res, 60, 300)):
+        kind = rng.choice(KINDS)
+        sz = rng.randint(1, 2)
+        base_mu = rng.choice([25.0, 30.0, 18.5])
+        t0 = [(base_mu, rng.uniform(2, 8)) for _ in range(sz)]
+        t1 = [(base_mu * (1 + 10 ** rng.uniform(-12, -8.3)), s_) for (_m, s_) in t0]
+        teams = [t0, t1] + ([[(rng.gauss(25, 5), rng.uniform(2, 8)) for _ in range(sz)]] if rng.random() < 0.5 else [])
+        g = make_game(kind, teams, oc=("R", [0, 0] + ([1] if len(teams) == 3 else [])), tau=rng.choice([0.0, core.DEFAULTS["tau"]]))
+        res.case(g); res.count("near_even_draws")
         c16_one(res, g, rng, games)
     res.rule = ("each game rescaled by k in {1e-3, 1e3, 2, 10^U(-3,3)} (mu, sigma, beta, tau; kappa and the degree-0 gamma callbacks "
                 "unchanged): posterior/k compared with the original (PL, BT full/part), predictions compared (all models); equal-size "
